@@ -33,6 +33,26 @@ def expand(case):
     return {"k": "tag", "name": "div", "attrs": [], "children": [node, {"k": "text", "hex": b"<z>".hex(), "str": False}]}
 
 
+def leaf_bytes(n) -> bytes:
+    """bytes of a leaf for the expected structure; a str leaf given as code points ("cps", may hold lone
+    surrogates) is taken with its surrogates REMOVED (see the oracle)"""
+    if "cps" in n:
+        return "".join(chr(c) for c in n["cps"] if not 0xD800 <= c <= 0xDFFF).encode("utf-8")
+    return bytes.fromhex(n["hex"])
+
+
+def has_surrogate(n) -> bool:
+    """some str leaf of the tree holds a lone surrogate"""
+    k = n["k"]
+    if k == "wrap":
+        return has_surrogate(n["node"])
+    if k == "seq":
+        return any(has_surrogate(x) for x in n["items"])
+    if k == "tag":
+        return any(has_surrogate(v) for _, v in n["attrs"]) or any(has_surrogate(c) for c in n["children"])
+    return any(0xD800 <= c <= 0xDFFF for c in n.get("cps", []))
+
+
 def unwrap(n):
     k = n["k"]
     if k == "wrap":
@@ -42,6 +62,8 @@ def unwrap(n):
     if k == "tag":
         return {"k": "tag", "name": n["name"], "attrs": [[a, unwrap(v)] for a, v in n["attrs"]],
                 "children": [unwrap(c) for c in n["children"]]}
+    if "cps" in n:
+        return {"k": k, "cps": n["cps"], "hex": leaf_bytes(n).hex()}
     return {"k": k, "hex": n["hex"]}
 
 
@@ -62,8 +84,11 @@ def build(n, late):
     from zope.interface import implementer
     k = n["k"]
     if k in ("text", "cdata", "comment"):
-        b = bytes.fromhex(n["hex"])
-        v = b.decode("utf-8") if n.get("str") else b
+        if "cps" in n:
+            v = "".join(chr(c) for c in n["cps"])
+        else:
+            b = bytes.fromhex(n["hex"])
+            v = b.decode("utf-8") if n.get("str") else b
         return v if k == "text" else (CDATA(v) if k == "cdata" else Comment(v))
     if k == "tag":
         name = n["name"].encode("ascii") if n.get("bname") else n["name"]
@@ -355,7 +380,7 @@ def raw_serial(n) -> bytes:
     """what an attribute value must READ BACK as: the serialisation of the value in attribute
     context before the attribute-level escaping (text raw; nested markup with its own escaping)"""
     k = n["k"]
-    b = bytes.fromhex(n["hex"]) if "hex" in n else b""
+    b = leaf_bytes(n) if ("hex" in n or "cps" in n) else b""
     if k == "text":
         return b
     if k == "cdata":
@@ -375,7 +400,7 @@ def raw_serial(n) -> bytes:
 
 def _content_serial(n) -> bytes:
     if n["k"] == "text":
-        return _ref_content(bytes.fromhex(n["hex"]))
+        return _ref_content(leaf_bytes(n))
     if n["k"] == "seq":
         return b"".join(_content_serial(x) for x in n["items"])
     return raw_serial(n)
@@ -399,11 +424,11 @@ def expected_tokens(n):
     CDATA: merged into one ('D', content) per node)"""
     k = n["k"]
     if k == "text":
-        return [("c", x) for x in bytes.fromhex(n["hex"])]
+        return [("c", x) for x in leaf_bytes(n)]
     if k == "cdata":
-        return [("D", bytes.fromhex(n["hex"]))]
+        return [("D", leaf_bytes(n))]
     if k == "comment":
-        b = bytes.fromhex(n["hex"])
+        b = leaf_bytes(n)
         inside = not b.startswith(b">") and not b.startswith(b"->") and b"--!>" not in b
         # the comment's text must be exactly the escaped text (reference escaper); outside the HTML5 guard
         # (known finding F10) a repaired escaper may write something else: position only
@@ -459,7 +484,7 @@ def _merge_expected(toks):
 
 def _comments(n, acc):
     if n["k"] == "comment":
-        acc.append(bytes.fromhex(n["hex"]))
+        acc.append(leaf_bytes(n))
     elif n["k"] == "seq":
         for x in n["items"]:
             _comments(x, acc)
@@ -565,9 +590,24 @@ def oracle(case, obs):
         return None
     case = expand(case)
     tree = unwrap(case)
+    sur = has_surrogate(tree)
     if obs.startswith("EXC:"):
+        if sur and obs.endswith(":UnicodeEncodeError"):
+            return None          # a str with a lone surrogate has no UTF-8 form: no document (HEAD behaviour)
         return Failure(case, "flattening raised " + obs, "flatten-raises:" + obs.split(":")[-1])
     flat = bytes.fromhex(obs.split(" ", 1)[0])
+    if sur:
+        # a document WAS produced for a tree with a lone surrogate: whatever stands for the surrogate (a
+        # character reference, its surrogatepass bytes, U+FFFD, '?'), the rest of the text must still be text --
+        # with those stand-ins removed the document must tokenize to the tree's tokens (surrogates removed)
+        import re as _re
+        cleaned = _re.sub(rb"&#[0-9]+;|&#x[0-9A-Fa-f]+;|\xed[\xa0-\xbf][\x80-\xbf]|\xef\xbf\xbd", b"", flat)
+        want = [("m", None) if t[0] == "m" else t for t in _merge_expected(expected_tokens(tree))]
+        for cand in (cleaned, cleaned.replace(b"?", b"")):
+            if _same(normalise(ref_tokens(cand)), want):
+                return None
+        return Failure(case, f"a str with a lone surrogate was flattened to {flat[:90]!r}: the text around the surrogate "
+                       f"is not escaped (markup introduced / structure changed)", "surrogate-text-becomes-markup")
     want = _merge_expected(expected_tokens(tree))
     got = normalise(ref_tokens(flat), comment_data=True)
     if not _same(got, want):
@@ -624,6 +664,10 @@ def _bytes(rng, maxparts=4, utf8=False):
 
 def _leaf(rng, kind=None):
     kind = kind or rng.choice(["text", "text", "cdata", "comment"])
+    if rng.random() < 0.04:
+        cps = [ord(c) for c in _bytes(rng, 3, utf8=True).decode("utf-8")]
+        cps.insert(rng.randrange(len(cps) + 1), rng.choice([0xD800, 0xDBFF, 0xDC00, 0xDFFF]))
+        return {"k": kind, "cps": cps, "str": True}
     as_str = rng.random() < 0.5
     b = _bytes(rng, utf8=as_str)
     return {"k": kind, "hex": b.hex(), "str": as_str}
@@ -698,6 +742,22 @@ def gen(rng, tier):
             for sq in seqs:
                 cases.append({"k": "long", "kind": kind, "seq": sq.hex(), "offset": o, "total": total,
                               "str": (k + d) % 2 == 0})
+    # lone surrogates (high, low, reversed pair) mixed with markup in every str position: child, list item, each
+    # wrapper (slot, Deferred, coroutine, renderer, render method), text of a tag nested in an attribute, attribute
+    # value, CDATA, comment -- no document, or a document in which the text is still text
+    payload = [ord(c) for c in '<script>alert(1)</script>&"-->]]>']
+    for sur in ([0xD83D], [0xDCFF], [0xDC00, 0xD800], [0xDCFF, 0x61]):
+        for cps in (sur + payload, payload + sur, payload[:8] + sur + payload[8:]):
+            leaf = lambda kind, cps=cps: {"k": kind, "cps": list(cps), "str": True}
+            p_ = lambda *ch: {"k": "tag", "name": "p", "attrs": [], "children": list(ch)}
+            cases.append(p_(leaf("text")))
+            cases.append({"k": "seq", "as": "list", "items": [leaf("text"), {"k": "text", "hex": b"<z>".hex(), "str": False}]})
+            for how in WRAPS:
+                cases.append(p_({"k": "wrap", "how": how, "node": leaf("text")}))
+            cases.append({"k": "tag", "name": "a", "attrs": [["id", p_(leaf("text"))]], "children": []})
+            cases.append({"k": "tag", "name": "a", "attrs": [["href", leaf("text")]], "children": [leaf("cdata")]})
+            cases.append(p_(leaf("cdata")))
+            cases.append(p_(leaf("comment")))
     for _ in range(500 if tier == "quick" else 6000):
         cases.append(_node(rng, rng.randrange(1, 6)))
     for _ in range(300 if tier == "quick" else 3000):
@@ -714,7 +774,23 @@ def to_coq(case):
     if case["k"] == "long":
         return None          # oracle only: 64 KiB values are not evaluated in Coq (the theorems are length-independent)
     if case["k"] == "raw":
-        return "inr " + coq_bytes(bytes.fromhex(case["hex"]))
+        return "RRaw " + coq_bytes(bytes.fromhex(case["hex"]))
+    if has_surrogate(case):
+        def sterm(n):
+            k = n["k"]
+            if k == "wrap":
+                return sterm(n["node"])
+            if k in ("text", "cdata", "comment"):
+                c = {"text": "SText", "cdata": "SCData", "comment": "SComment"}[k]
+                if "cps" in n:
+                    cps = "[" + ";".join(str(x) for x in n["cps"]) + "]%N" if n["cps"] else "(@nil N)"
+                    return f"({c} (TStr {cps}))"
+                return f"({c} (TBytes {coq_bytes(bytes.fromhex(n['hex']))}))"
+            if k == "seq":
+                return "(SSeq [" + "; ".join(sterm(x) for x in n["items"]) + "])"
+            attrs = "[" + "; ".join("(" + coq_bytes(a.encode()) + ", " + sterm(v) + ")" for a, v in n["attrs"]) + "]"
+            return "(STag " + coq_bytes(n["name"].encode()) + " " + attrs + " [" + "; ".join(sterm(c) for c in n["children"]) + "])"
+        return "RSrc " + sterm(case)
 
     def term(n):
         k = n["k"]
@@ -725,7 +801,7 @@ def to_coq(case):
         attrs = "[" + "; ".join("(" + coq_bytes(a.encode()) + ", " + term(v) + ")" for a, v in n["attrs"]) + "]"
         return "(NTag " + coq_bytes(n["name"].encode()) + " " + attrs + " [" + "; ".join(term(c) for c in n["children"]) + "])"
 
-    return "inl " + term(unwrap(case))
+    return "RTree " + term(unwrap(case))
 
 
 def shrink(case):
@@ -734,6 +810,11 @@ def shrink(case):
         return
     if k == "wrap":
         yield case["node"]
+    if k in ("text", "cdata", "comment") and "cps" in case:
+        cps = case["cps"]
+        for i in range(len(cps)):
+            yield dict(case, cps=cps[:i] + cps[i + 1:])
+        return
     if k in ("text", "cdata", "comment", "raw"):
         b = bytes.fromhex(case["hex"])
         for i in range(len(b)):
@@ -809,6 +890,7 @@ SPEC = Spec(
         "against expat (xml.dom.minidom); the WHATWG comment states are transcribed from the standard (no HTML5 "
         "parser is available in the image)",
     ],
-    assumptions=["tag and attribute names are valid (non-empty, [A-Za-z0-9_:.-]); str content has no lone surrogates",
+    assumptions=["tag and attribute names are valid (non-empty, [A-Za-z0-9_:.-]); a str with a lone surrogate yields no document (modelled: "
+                 "flatten_source = None)",
                  "CharRef nodes and the t:render / t:slot template loader are outside the model"],
 )
